@@ -78,6 +78,10 @@ func newSymSpec(rng *mon.RNG) *symSpec {
 	return s
 }
 
+func (s *symSpec) lateRefMode() int {
+	return 1
+}
+
 func (s *symSpec) kind() string { return "sym" }
 func (s *symSpec) desc() string { return s.descStr }
 func (s *symSpec) sig(ref, got outcome) string {
@@ -195,6 +199,10 @@ func newAsymSpec(rng *mon.RNG, g int) *asymSpec {
 	return s
 }
 
+func (s *asymSpec) lateRefMode() int {
+	return 1
+}
+
 func (s *asymSpec) kind() string { return "asym" }
 func (s *asymSpec) desc() string { return s.descStr }
 func (s *asymSpec) sig(ref, got outcome) string {
@@ -302,6 +310,10 @@ func newKeysSpec(rng *mon.RNG, g int) *keysSpec {
 	}
 	s.descStr = fmt.Sprintf("keys key=%s form=%s rsakey=%d keyset=%d oct=%s pause=%s", s.which, s.form, s.rsaIdx, g%2, hex.EncodeToString(s.oct), s.d)
 	return s
+}
+
+func (s *keysSpec) lateRefMode() int {
+	return 1
 }
 
 func (s *keysSpec) kind() string { return "keys" }
